@@ -331,6 +331,10 @@ def mStep (L : Lang) (s : St) (j : Json) : R (St × Json × Json) := do
   | "remove_asset_from_association" => res (removeAssetFromAssociation s (← jfield jnat j "a") (← jfield jnat j "l"))
   | "add_association" => res (addAssociation L s (← jfield jstr j "cls") (← jfield (jlist jnat) j "left") (← jfield (jlist jnat) j "right"))
   | "remove_association" => res (removeAssociation s (← jfield jnat j "l"))
+  | "set_assoc_extras" =>
+    let l ← jfield jnat j "l"
+    let ex ← jfield jstr j "extras"
+    ok (updL s l (fun o => { o with extras := ex }))
   | "add_attacker" => ok (addAttacker s (← jfieldOpt jstr j "name") (← jfieldOpt jint j "id"))
   | "remove_attacker" => res (removeAttacker s (← jfield jnat j "t"))
   | "add_entry_point" => ok (addEntryPoint s (← jfield jnat j "t") (← jfield jnat j "a") (← jfield jstr j "step"))
